@@ -69,6 +69,7 @@ class Run(object):
         self.sock = None
         self.calls = []          # primitive expect-family calls (see CallRec)
         self.raw_calls = set()      # ops in which the harness handed uncompiled strings to expect()
+        self._ended_at_entry = {}
         self.ops = []            # per driver op: dict(outcome...)
         self.notes = []
 
@@ -196,9 +197,25 @@ class Run(object):
         orig_list = cls.expect_list
         orig_exact = cls.expect_exact
 
+        def ended_now():
+            """Kernel truth at call entry: the peer has ended the stream and nothing is left unread (None: not known)."""
+            try:
+                tr = run.scn.get('transport')
+                if tr in ('pty', 'pxssh') and getattr(run, 'pty', None) is not None:
+                    return bool(run.pty.hung_up() and not run.pty.out)
+                if tr == 'fd' and getattr(run, 'fd_pipe', None) is not None:
+                    return bool(run.fd_pipe.p.writers == 0 and not run.fd_pipe.p.buf)
+                if tr == 'sock' and getattr(run, 'sock', None) is not None:
+                    end = run.sock._end
+                    return bool(end.rx.wr_closed and not end.rx.buf and not end.reset)
+            except Exception:
+                return None
+            return None
+        run.ended_now = ended_now
+
         def snap(api, plist, timeout, sws, c0, t0, outcome, is_async=False):
             run.calls.append({
-                'async': is_async,
+                'async': is_async, 'ended_at_entry': run._ended_at_entry.pop(t0, None),
                 'api': api, 'plist': plist, 'timeout': timeout, 'sws': sws,
                 'inst_sws': child.searchwindowsize, 'inst_timeout': child.timeout,
                 'c0': c0, 'c1': len(child.chunks), 't0': t0, 't1': run.w.now,
@@ -210,6 +227,7 @@ class Run(object):
             if async_ or kw.get('async'):
                 return orig_list(child, pattern_list, timeout, searchwindowsize, async_, **kw)
             c0, t0 = len(child.chunks), run.w.now
+            run._ended_at_entry[t0] = ended_now()
             try:
                 r = orig_list(child, pattern_list, timeout, searchwindowsize)
             except BaseException as e:
@@ -229,6 +247,7 @@ class Run(object):
             coerce = getattr(child, '_coerce_expect_string', None) or \
                 (lambda x: x if child.encoding is not None or isinstance(x, bytes) else x.encode('ascii'))
             pl = [p if p in (TIMEOUT, EOF) else coerce(p) for p in pl]
+            run._ended_at_entry[t0] = ended_now()
             try:
                 r = orig_exact(child, pattern_list, timeout, searchwindowsize)
             except BaseException as e:
@@ -258,7 +277,7 @@ class Run(object):
             elif exact:
                 out.append(self.conv(p['p']))
             else:
-                out.append(re.compile(self.conv(p['p']), re.DOTALL))
+                out.append(re.compile(self.conv(p['p']), re.DOTALL | (re.VERBOSE if p.get('fl') == 'x' else 0)))
         return out
 
     def do_op(self, k, op):
